@@ -144,6 +144,9 @@ type bcase struct {
 	ws   [][2]*big.Int
 	pre  []acct
 	txs  []txn
+	// the first [split] transactions form a first block (no withdrawals), the state is committed
+	// and reopened, the rest and the withdrawals form a second block; split >= len(txs): one block
+	split int
 }
 
 func bi(s Sx) *big.Int { return AsBig(s) }
@@ -197,6 +200,10 @@ func parseCase(c Sx) bcase {
 	if t.env[4].BitLen() > 40 {
 		panic("hxlib: block gas limit outside the generated range")
 	}
+	t.split = 1 << 20
+	if len(l) > 5 {
+		t.split = int(AsInt(l[5]))
+	}
 	return t
 }
 
@@ -234,10 +241,13 @@ func (t bcase) sx() Sx {
 		txs = append(txs, L(I(int64(x.typ)), Big(x.from), U(x.nonce), U(x.gas), Big(x.feecap), Big(x.tipcap), to,
 			Big(x.value), B(x.data), al, Big(x.blobfeecap), hs))
 	}
+	if t.split < len(t.txs) {
+		return L(I(int64(t.fork)), ev, ws, pre, txs, I(int64(t.split)))
+	}
 	return L(I(int64(t.fork)), ev, ws, pre, txs)
 }
 
-func addrOf(b *big.Int) common.Address { return common.BigToAddress(b) }
+func addrOf(b *big.Int) common.Address  { return common.BigToAddress(b) }
 func addrBig(a common.Address) *big.Int { return new(big.Int).SetBytes(a.Bytes()) }
 
 // ---------------------------------------------------------------------------
@@ -339,11 +349,11 @@ func buildState(t bcase) *state.StateDB {
 
 type fakeChain struct{ cfg *params.ChainConfig }
 
-func (f fakeChain) Config() *params.ChainConfig                              { return f.cfg }
-func (f fakeChain) CurrentHeader() *types.Header                             { return nil }
-func (f fakeChain) GetHeader(common.Hash, uint64) *types.Header              { return nil }
-func (f fakeChain) GetHeaderByNumber(uint64) *types.Header                   { return nil }
-func (f fakeChain) GetHeaderByHash(common.Hash) *types.Header                { return nil }
+func (f fakeChain) Config() *params.ChainConfig                 { return f.cfg }
+func (f fakeChain) CurrentHeader() *types.Header                { return nil }
+func (f fakeChain) GetHeader(common.Hash, uint64) *types.Header { return nil }
+func (f fakeChain) GetHeaderByNumber(uint64) *types.Header      { return nil }
+func (f fakeChain) GetHeaderByHash(common.Hash) *types.Header   { return nil }
 
 type txOut struct {
 	included bool
@@ -352,21 +362,24 @@ type txOut struct {
 }
 
 type runOut struct {
-	txs       []txOut
-	totalPre  *big.Int
-	totalPost *big.Int
-	minted    *big.Int
-	burnt     *big.Int
-	destroyed *big.Int
-	accounts  SL
-	viol      []string
-	steps     int
-	overrun   bool
-	panicked  string
-	nSelfd    int
-	nCreate   int
-	nValue    int
-	nFailedTx int
+	txs          []txOut
+	totalPre     *big.Int
+	totalPost    *big.Int
+	minted       *big.Int
+	burnt        *big.Int
+	destroyed    *big.Int
+	accounts     SL
+	viol         []string
+	steps        int
+	overrun      bool
+	panicked     string
+	nSelfd       int
+	nCreate      int
+	nValue       int
+	nFailedTx    int
+	twoBlocks    bool
+	destroyedTxs int
+	sdOld, sdNew int // transactions in which an older / a just created contract executed SELFDESTRUCT
 }
 
 const stepBudget = 3000000
@@ -467,15 +480,58 @@ func execute(t bcase, level int) (out runOut) {
 	}
 	hooked := state.NewHookedState(st, hooks)
 	evm := vm.NewEVM(bctx, hooked, cfg, vm.Config{Tracer: hooks})
-	defer evm.Release()
+	defer func() { evm.Release() }()
 	rules := evm.GetRules()
 	gp := core.NewGasPool(t.env[4].Uint64())
 	blockHash := common.Hash{0xb1}
+	// per-transaction bookkeeping for the EIP-6780 oracle
+	createdTx := map[common.Address]bool{}
+	sdByCreated, sdByOld := 0, 0
+	hooks.OnEnter = func(depth int, typ byte, from, to common.Address, input []byte, gas uint64, value *big.Int) {
+		cand[from], cand[to] = true, true
+		switch vm.OpCode(typ) {
+		case vm.SELFDESTRUCT:
+			selfd++
+			out.nSelfd++
+			if createdTx[from] {
+				sdByCreated++
+			} else {
+				sdByOld++
+			}
+		case vm.CREATE, vm.CREATE2:
+			out.nCreate++
+			createdTx[to] = true
+		}
+		if value != nil && value.Sign() > 0 && depth > 0 {
+			out.nValue++
+		}
+	}
 
 	out.totalPre = sum()
 	out.burnt, out.destroyed = new(big.Int), new(big.Int)
 	running := new(big.Int).Set(out.totalPre)
 	for i, x := range t.txs {
+		if i == t.split && i > 0 {
+			// block boundary: finalise, commit, reopen the state from the database, new EVM, new gas pool
+			st.Finalise(rules)
+			root, err := st.Commit(rules, number.Uint64())
+			if err != nil {
+				bad("commit at the block boundary: " + err.Error())
+				break
+			}
+			if st, err = state.New(root, backing); err != nil {
+				bad("reopen at the block boundary: " + err.Error())
+				break
+			}
+			evm.Release()
+			hooked = state.NewHookedState(st, hooks)
+			evm = vm.NewEVM(bctx, hooked, cfg, vm.Config{Tracer: hooks})
+			gp = core.NewGasPool(t.env[4].Uint64())
+			if s2 := sum(); s2.Cmp(running) != 0 {
+				bad(fmt.Sprintf("commit / reopen at the block boundary moved the balance sum from %v to %v", running, s2))
+			}
+			out.twoBlocks = true
+		}
 		// the message of this transaction under this rule set
 		price := new(big.Int).Set(x.feecap)
 		if level >= lvLondon {
@@ -524,7 +580,18 @@ func execute(t bcase, level int) (out runOut) {
 		for k := range byReason {
 			delete(byReason, k)
 		}
-		selfd = 0
+		selfd, sdByCreated, sdByOld = 0, 0, 0
+		for k := range createdTx {
+			delete(createdTx, k)
+		}
+		codeBefore := map[common.Address]common.Hash{}
+		if level >= lvCancun {
+			for a := range cand {
+				if h := st.GetCodeHash(a); h != (common.Hash{}) && h != types.EmptyCodeHash {
+					codeBefore[a] = h
+				}
+			}
+		}
 		st.SetTxContext(tx.Hash(), i, uint32(i+1))
 		snap := st.Snapshot()
 		gpCopy := gp.Snapshot()
@@ -583,6 +650,31 @@ func execute(t bcase, level int) (out runOut) {
 			bad(fmt.Sprintf("tx %d created %v wei: balance sum %v -> %v with %v burnt as fees", i, new(big.Int).Neg(d), running, after, burn))
 		} else if d.Sign() > 0 && selfd == 0 {
 			bad(fmt.Sprintf("tx %d lost %v wei without any SELFDESTRUCT: balance sum %v -> %v with %v burnt as fees", i, d, running, after, burn))
+		}
+		// EIP-6780 (Cancun+): only a contract created in this very transaction can be removed or
+		// can burn ether by SELFDESTRUCT; every account that had code when the transaction started
+		// still has that code afterwards
+		if level >= lvCancun {
+			for a, h := range codeBefore {
+				if h2 := st.GetCodeHash(a); h2 != h {
+					bad(fmt.Sprintf("tx %d: account %s had code before the transaction and lost / changed it (%x -> %x) although it was not created in this transaction", i, a.Hex(), h[:4], h2[:4]))
+				}
+			}
+			if d.Sign() > 0 && sdByCreated == 0 {
+				bad(fmt.Sprintf("tx %d lost %v wei but no contract created in this transaction executed SELFDESTRUCT (%d by older contracts)", i, d, sdByOld))
+			}
+		}
+		if level >= lvAmsterdam && d.Sign() != 0 {
+			bad(fmt.Sprintf("tx %d lost %v wei under Amsterdam rules (EIP-8246: SELFDESTRUCT burns nothing)", i, d))
+		}
+		if d.Sign() > 0 {
+			out.destroyedTxs++
+		}
+		if sdByOld > 0 {
+			out.sdOld++
+		}
+		if sdByCreated > 0 {
+			out.sdNew++
 		}
 		out.burnt.Add(out.burnt, burn)
 		out.destroyed.Add(out.destroyed, d)
@@ -726,6 +818,15 @@ func run(c Sx) Result {
 	}
 	if len(t.ws) > 0 {
 		res.Tags = append(res.Tags, "withdrawals")
+	}
+	if main.twoBlocks {
+		res.Tags = append(res.Tags, "twoblocks")
+	}
+	if main.sdOld > 0 {
+		res.Tags = append(res.Tags, "selfdestruct-by-older-contract")
+	}
+	if main.sdNew > 0 {
+		res.Tags = append(res.Tags, "selfdestruct-by-new-contract")
 	}
 	res.NonTrivial = inc > 0
 	return res
